@@ -9,9 +9,11 @@ import (
 )
 
 // PL <op>… : a history on the shared block-buffer pools.
-//   g<idx>        Get a buffer of class idx (3..7); prints len/cap
-//   p<k>:<n>      Put back the first n bytes (a slice) of the k-th buffer obtained so far
-//   P<cap>:<n>    Put a foreign buffer make([]byte, n, cap)
+//
+//	g<idx>        Get a buffer of class idx (3..7); prints len/cap
+//	p<k>:<n>      Put back the first n bytes (a slice) of the k-th buffer obtained so far
+//	P<cap>:<n>    Put a foreign buffer make([]byte, n, cap)
+//
 // What Get returns must not depend on what was put before: len = cap = the class size.
 func implPL(f []string, o *oracleSink) string {
 	var got [][]byte
